@@ -48,7 +48,8 @@ var regexPool = []string{`/[a-z]+/`, `/[0-9]+/`, `/[A-Za-z_][0-9A-Za-z_]*/`, `/0
 var predefPool = []string{"$WS", "$DIGIT", "$LETTER", "$ID", "$NUMBER", "$STRING", "$COMMENT"}
 
 type GenOpts struct {
-	AllowInvalid bool // also produce seeded-defect variants
+	ForceMode    string // produce exactly this seeded-defect mode
+	AllowInvalid bool   // also produce seeded-defect variants
 	MaxRules     int
 	MaxDepth     int
 }
@@ -77,7 +78,10 @@ func GenSpec(t *simrt.Tape, opts GenOpts) *Spec {
 	}
 	b := &builder{t: t, opts: opts}
 	mode := "valid"
-	if opts.AllowInvalid && t.Chance(1, 4) {
+	if opts.ForceMode != "" {
+		mode = opts.ForceMode
+		t.Draw(1)
+	} else if opts.AllowInvalid && t.Chance(1, 4) {
 		mode = []string{"undefined_token", "duplicate_def", "duplicate_value", "missing_start", "undefined_nonterm", "syntax_delete", "syntax_insert", "unknown_predef", "literal_equals_token_value", "literal_equals_token_value"}[t.Pick(10)]
 	} else {
 		t.Draw(1)
